@@ -35,7 +35,7 @@ theorem inv_quiet {a : Nat} {s : Sys} {l1 l2 : List Th} {r : Role} {p p' : Pc}
     · exact Or.inr (Or.inl ⟨h1, hl2 h1 h2⟩)
     · exact Or.inr (Or.inr h1)
   refine inv_mk0 (s' := { s with ths := l1 ++ ⟨r, p'⟩ :: l2 }) (th' := ⟨r, p'⟩) h hs rfl rfl (frame_refl _ _ _) hok
-    ?_ ?_ ?_ ?_ ?_ ?_ ?_ ?_
+    ?_ ?_ ?_ ?_ ?_ ?_ ?_ ?_ ?_
   · show s.wg = _ + s.acceptQ.length + _ + _
     rw [hrl, openCnt_congr _ _ _ hst, htk, ← hs]
     exact h.count
@@ -52,6 +52,9 @@ theorem inv_quiet {a : Nat} {s : Sys} {l1 l2 : List Th} {r : Role} {p p' : Pc}
     show started (l1 ++ ⟨r, p'⟩ :: l2) c = true
     rw [hst, ← hs]
     exact h.tbl c hca hct
+  · show relL (l1 ++ ⟨r, p'⟩ :: l2) = true → s.arrPending = false ∧ s.acceptQ = []
+    rw [hrl, ← hs]
+    exact h.rel
 
 /-- Accept takes the oldest queued connection -/
 theorem inv_take {a : Nat} {s : Sys} {l1 l2 : List Th} {c : Nat} {rest : List Nat}
@@ -62,8 +65,8 @@ theorem inv_take {a : Nat} {s : Sys} {l1 l2 : List Th} {c : Nat} {rest : List Na
   rw [hs] at hcount hacc htbl
   simp only [List.nodup_cons] at hqnd
   refine inv_mk0 (s' := { s with acceptQ := rest, ths := l1 ++ ⟨.acceptor, .done (.conn c)⟩ :: l2 })
-    (th' := ⟨.acceptor, .done (.conn c)⟩) h hs rfl rfl ?_ ?_ ?_ h.sock h.rwg ?_ hqnd.2 h.nge ?_ ?_
-  · refine ⟨fun _ h => h, fun h _ => h, id, ?_⟩
+    (th' := ⟨.acceptor, .done (.conn c)⟩) h hs rfl rfl ?_ ?_ ?_ h.sock h.rwg ?_ hqnd.2 h.nge ?_ ?_ ?_
+  · refine ⟨fun _ h => h, fun h _ _ => h, id, ?_, fun _ h => h⟩
     intro c' h1 h2 h3 h4
     rw [hq] at h4
     exact ⟨h2, h3, fun hm => h4 (List.mem_cons_of_mem _ hm)⟩
@@ -88,6 +91,11 @@ theorem inv_take {a : Nat} {s : Sys} {l1 l2 : List Th} {c : Nat} {rest : List Na
   · intro c' h1 h2
     have := htbl c' h1 h2
     simpa [started_append, started_cons] using this
+  · intro hr
+    have hr' : relL s.ths = true := by
+      rw [hs]; simpa [relL_append, relL_cons] using hr
+    have := (h.rel hr').2
+    rw [hq] at this; cases this
 
 /-- listener Close, first segment: stop accepting, close `doneCh` -/
 theorem inv_lstart {a : Nat} {s : Sys} {l1 l2 : List Th}
@@ -97,8 +105,8 @@ theorem inv_lstart {a : Nat} {s : Sys} {l1 l2 : List Th}
   have hcount := h.count; have htbl := h.tbl
   rw [hs] at hcount htbl
   refine inv_mk (s' := { s with accepting := false, doneClosed := true, ths := l1.map (wk true false) ++ ⟨.lcloser, .atLock⟩ :: l2.map (wk true false) })
-    (th' := ⟨.lcloser, .atLock⟩) h hs rfl rfl ?_ ?_ ?_ h.sock h.rwg h.qok h.qnd h.nge ?_ ?_
-  · exact ⟨fun _ h => h, fun h _ => h, fun _ => rfl, fun _ _ h2 h3 h4 => ⟨h2, h3, h4⟩⟩
+    (th' := ⟨.lcloser, .atLock⟩) h hs rfl rfl ?_ ?_ ?_ h.sock h.rwg h.qok h.qnd h.nge ?_ ?_ ?_
+  · exact ⟨fun _ h => h, fun h _ _ => h, fun _ => rfl, fun _ _ h2 h3 h4 => ⟨h2, h3, h4⟩, fun _ h => h⟩
   · refine ⟨by simp, by simp, by simp, by simp, by simp⟩
   · show s.wg = _ + s.acceptQ.length + _ + _
     rw [hcount]
@@ -112,6 +120,10 @@ theorem inv_lstart {a : Nat} {s : Sys} {l1 l2 : List Th}
   · intro c' h1 h2
     have := htbl c' h1 h2
     simpa [started_append, started_cons] using this
+  · intro hr
+    apply h.rel
+    rw [hs]
+    simpa [relL_append, relL_cons] using hr
 
 theorem sock_casc {sc : Bool} {wg wg' : Nat} (hsock : sc = true ↔ wg = 0) (hle : wg' ≤ wg) (b : Bool)
     (hb : b = (decide (wg' = 0) && !sc)) : (sc || b) = true ↔ wg' = 0 := by
@@ -128,7 +140,7 @@ theorem rwg_casc {sc : Bool} {rw : Nat} (h : sc = true → rw = 0) (b : Bool) :
 
 /-- listener Close, second segment: discard the backlog, drop the listener's reference -/
 theorem inv_llock {a : Nat} {s : Sys} {l1 l2 : List Th}
-    (h : Inv a s) (hs : s.ths = l1 ++ ⟨.lcloser, .atLock⟩ :: l2) (b : Bool)
+    (h : Inv a s) (hs : s.ths = l1 ++ ⟨.lcloser, .atLock⟩ :: l2) (hpend : s.arrPending = false) (b : Bool)
     (hb : b = (decide (s.wg - s.acceptQ.length - 1 = 0) && !s.sockClosed))
     (tb' : List Nat) (htb : tb' = s.table.filter (fun c => !s.acceptQ.contains c))
     (p' : Pc) (hp' : (p' = .atWait ∧ tb' = []) ∨ p' = .done .ok) :
@@ -147,11 +159,11 @@ theorem inv_llock {a : Nat} {s : Sys} {l1 l2 : List Th}
         = started (l1 ++ ⟨.lcloser, .atLock⟩ :: l2) c' := by
     intro c'; simp [started_append, started_cons]
   refine inv_mk (s' := { s with acceptQ := [], table := tb', wg := s.wg - s.acceptQ.length - 1, sockClosed := s.sockClosed || b, readWG := if b = true then 0 else s.readWG, ths := l1.map (wk b b) ++ ⟨.lcloser, p'⟩ :: l2.map (wk b b) })
-    (th' := ⟨.lcloser, p'⟩) h hs rfl rfl ?_ ?_ ?_ ?_ ?_ ?_ ?_ h.nge ?_ ?_
-  · refine ⟨?_, ?_, id, ?_⟩
+    (th' := ⟨.lcloser, p'⟩) h hs rfl rfl ?_ ?_ ?_ ?_ ?_ ?_ ?_ h.nge ?_ ?_ ?_
+  · refine ⟨?_, ?_, id, ?_, fun _ h => h⟩
     · intro hbf hsc
       simpa [hbf] using hsc
-    · intro ht _
+    · intro ht _ _
       show tb' = []
       rw [htb, ht]; rfl
     · intro c' h1 h2 h3 h4
@@ -160,7 +172,7 @@ theorem inv_llock {a : Nat} {s : Sys} {l1 l2 : List Th}
       rw [htb, List.mem_filter]
       exact ⟨h3, by simpa using h4⟩
   · rcases hp' with ⟨rfl, ht⟩ | rfl
-    · exact ⟨by simp, fun _ => ⟨ht, hacc⟩, by simp, fun _ _ => hacc, by simp⟩
+    · exact ⟨by simp, fun _ => ⟨ht, hacc, hpend⟩, by simp, fun _ _ => hacc, by simp⟩
     · exact ⟨by simp, by simp, by simp, fun _ _ => hacc, by simp⟩
   · show s.wg - s.acceptQ.length - 1 = _ + 0 + _ + _
     rw [openCnt_congr _ _ _ hst]
@@ -188,6 +200,7 @@ theorem inv_llock {a : Nat} {s : Sys} {l1 l2 : List Th}
     intro hq
     have := (h.qok c' hq).1
     omega
+  · exact fun _ => ⟨hpend, rfl⟩
 
 /-- Conn.Close, first segment: give the reference back -/
 theorem inv_cstart {a : Nat} {s : Sys} {l1 l2 : List Th} {c : Nat}
@@ -205,8 +218,8 @@ theorem inv_cstart {a : Nat} {s : Sys} {l1 l2 : List Th} {c : Nat}
       have : ¬ (c = c') := fun e => hc' e.symm
       simp [started_append, started_cons, this])
   refine inv_mk (s' := { s with wg := s.wg - 1, sockClosed := s.sockClosed || b, readWG := if b = true then 0 else s.readWG, ths := l1.map (wk b b) ++ ⟨.ccloser c, .atLock⟩ :: l2.map (wk b b) })
-    (th' := ⟨.ccloser c, .atLock⟩) h hs rfl rfl ?_ ?_ ?_ ?_ ?_ h.qok h.qnd h.nge ?_ ?_
-  · refine ⟨?_, fun h _ => h, id, fun _ _ h2 h3 h4 => ⟨h2, h3, h4⟩⟩
+    (th' := ⟨.ccloser c, .atLock⟩) h hs rfl rfl ?_ ?_ ?_ ?_ ?_ h.qok h.qnd h.nge ?_ ?_ ?_
+  · refine ⟨?_, fun h _ _ => h, id, fun _ _ h2 h3 h4 => ⟨h2, h3, h4⟩, fun _ h => h⟩
     intro hbf hsc
     simpa [hbf] using hsc
   · exact ⟨by simp, by simp, by simp, by simp, by simp⟩
@@ -225,10 +238,14 @@ theorem inv_cstart {a : Nat} {s : Sys} {l1 l2 : List Th} {c : Nat}
     rcases this with h | h
     · exact Or.inl h
     · exact Or.inr (Or.inr h)
+  · intro hr
+    apply h.rel
+    rw [hs]
+    simpa [relL_append, relL_cons] using hr
 
 /-- Conn.Close, second segment: unregister from the listener's table -/
 theorem inv_clock {a : Nat} {s : Sys} {l1 l2 : List Th} {c : Nat}
-    (h : Inv a s) (hs : s.ths = l1 ++ ⟨.ccloser c, .atLock⟩ :: l2)
+    (h : Inv a s) (hs : s.ths = l1 ++ ⟨.ccloser c, .atLock⟩ :: l2) (hpend : s.arrPending = false)
     (tb' : List Nat) (htb : tb' = s.table.filter (· ≠ c))
     (p' : Pc) (hp' : (p' = .atWait ∧ tb' = [] ∧ s.accepting = false) ∨ p' = .done .ok) :
     Inv a { s with table := tb', ths := l1 ++ ⟨.ccloser c, p'⟩ :: l2 } := by
@@ -243,15 +260,15 @@ theorem inv_clock {a : Nat} {s : Sys} {l1 l2 : List Th} {c : Nat}
     rw [htb, List.mem_filter]
     exact ⟨h2, by simpa using h1⟩
   refine inv_mk0 (s' := { s with table := tb', ths := l1 ++ ⟨.ccloser c, p'⟩ :: l2 })
-    (th' := ⟨.ccloser c, p'⟩) h hs rfl rfl ?_ ?_ ?_ h.sock h.rwg ?_ h.qnd h.nge ?_ ?_
-  · refine ⟨fun _ h => h, ?_, id, ?_⟩
-    · intro ht _
+    (th' := ⟨.ccloser c, p'⟩) h hs rfl rfl ?_ ?_ ?_ h.sock h.rwg ?_ h.qnd h.nge ?_ ?_ ?_
+  · refine ⟨fun _ h => h, ?_, id, ?_, fun _ h => h⟩
+    · intro ht _ _
       show tb' = []
       rw [htb, ht]; rfl
     · intro c' h1 h2 h3 h4
       exact ⟨h2, hmem c' (by omega) h3, h4⟩
   · rcases hp' with ⟨rfl, ht, ha⟩ | rfl
-    · exact ⟨by simp, fun _ => ⟨ht, ha⟩, by simp, by simp, by simp⟩
+    · exact ⟨by simp, fun _ => ⟨ht, ha, hpend⟩, by simp, by simp, by simp⟩
     · exact ⟨by simp, by simp, by simp, by simp, by simp⟩
   · show s.wg = _ + s.acceptQ.length + _ + _
     rw [hcount, openCnt_congr _ _ _ hst]
@@ -269,36 +286,64 @@ theorem inv_clock {a : Nat} {s : Sys} {l1 l2 : List Th} {c : Nat}
       simp [started_append, started_cons, hp0]
     · rw [hst]
       exact htbl c' h1 (fun hm => h2 (hmem c' hcc hm))
+  · intro hr
+    apply h.rel
+    rw [hs]
+    rcases hp' with ⟨rfl, _⟩ | rfl <;> simpa [relL_append, relL_cons] using hr
 
 theorem frame_arrive (a : Nat) (s : Sys) (q' : List Nat) (hq : q' = s.acceptQ ∨ q' = s.acceptQ ++ [s.nextConn])
-    (hacc : s.accepting = true) :
-    Frame a false s { s with nextConn := s.nextConn + 1, wg := s.wg + 1, table := s.table ++ [s.nextConn], acceptQ := q' } := by
-  refine ⟨fun _ h => h, ?_, id, ?_⟩
-  · intro _ hf
-    rw [hacc] at hf; cases hf
+    (hp : s.arrPending = true) (ths' : List Th) :
+    Frame a false s { s with arrPending := false, nextConn := s.nextConn + 1, wg := s.wg + 1,
+                             table := s.table ++ [s.nextConn], acceptQ := q', ths := ths' } := by
+  refine ⟨fun _ h => h, ?_, id, ?_, ?_⟩
+  · intro _ _ hf
+    rw [hp] at hf; cases hf
   · intro c h1 h2 h3 h4
     refine ⟨by show c < s.nextConn + 1; omega, by show c ∈ s.table ++ [s.nextConn]; simp [h3], ?_⟩
     show c ∉ q'
     rcases hq with rfl | rfl
     · exact h4
     · simp [h4]; omega
+  · intro _ hf
+    exact absurd hf (by simp [hp])
+
+/-- the admission check of `getConn` succeeds: the arrival is in flight -/
+theorem inv_begin {a : Nat} {s : Sys} (h : Inv a s) (hacc : s.accepting = true) :
+    Inv a { s with arrPending := true } := by
+  refine ⟨h.wf, h.count, h.sock, h.rwg, h.qok, h.qnd, h.nge, h.acc, h.tbl, ?_, ?_⟩
+  · intro hr
+    have : relL s.ths = true := hr
+    have := acc_of_relL h this
+    rw [hacc] at this; cases this
+  · refine thr_frame h.thr ⟨fun _ h => h, fun h _ _ => h, id, fun _ _ h2 h3 h4 => ⟨h2, h3, h4⟩, ?_⟩ rfl
+    intro hf
+    rw [hacc] at hf; cases hf
+
+/-- the arrival in flight finds the backlog full: nothing is created -/
+theorem inv_unpend {a : Nat} {s : Sys} (h : Inv a s) : Inv a { s with arrPending := false } := by
+  refine ⟨h.wf, h.count, h.sock, h.rwg, h.qok, h.qnd, h.nge, h.acc, h.tbl, ?_, ?_⟩
+  · intro hr
+    exact ⟨rfl, (h.rel hr).2⟩
+  · exact thr_frame h.thr ⟨fun _ h => h, fun h _ _ => h, id, fun _ _ h2 h3 h4 => ⟨h2, h3, h4⟩, fun _ _ => rfl⟩ rfl
 
 /-- a new remote's first datagram, handed directly to an Accept blocked in its select -/
 theorem inv_give {a : Nat} {s : Sys} {l1 l2 : List Th} {r : Role}
-    (h : Inv a s) (hs : s.ths = l1 ++ ⟨r, .parkedSelect⟩ :: l2) (hsc : s.sockClosed = false) (hacc : s.accepting = true) :
-    Inv a { s with nextConn := s.nextConn + 1, wg := s.wg + 1, table := s.table ++ [s.nextConn],
+    (h : Inv a s) (hs : s.ths = l1 ++ ⟨r, .parkedSelect⟩ :: l2) (hp : s.arrPending = true) :
+    Inv a { s with arrPending := false, nextConn := s.nextConn + 1, wg := s.wg + 1, table := s.table ++ [s.nextConn],
                    ths := l1 ++ ⟨r, .done (.conn s.nextConn)⟩ :: l2 } := by
-  have hcount := h.count; have htbl := h.tbl; have hthr := h.thr
-  rw [hs] at hcount htbl hthr
+  have hsc := sock_of_pend h hp
+  have hrel := relL_of_pend h hp
+  have hcount := h.count; have htbl := h.tbl; have hthr := h.thr; have hacc := h.acc
+  rw [hs] at hcount htbl hthr hacc hrel
   have hr : r ≠ .lcloser := by
     intro hr
     have := (hthr ⟨r, .parkedSelect⟩ (by simp)).2.2.1 hr
     simp at this
   have hst : ∀ c', started (l1 ++ ⟨r, .done (.conn s.nextConn)⟩ :: l2) c' = started (l1 ++ ⟨r, .parkedSelect⟩ :: l2) c' := by
     intro c'; simp [started_append, started_cons]
-  refine inv_mk0 (s' := { s with nextConn := s.nextConn + 1, wg := s.wg + 1, table := s.table ++ [s.nextConn], ths := l1 ++ ⟨r, .done (.conn s.nextConn)⟩ :: l2 })
-    (th' := ⟨r, .done (.conn s.nextConn)⟩) h hs rfl rfl ?_ ?_ ?_ ?_ ?_ ?_ h.qnd ?_ ?_ ?_
-  · exact frame_arrive a s s.acceptQ (Or.inl rfl) hacc
+  refine inv_mk0 (s' := { s with arrPending := false, nextConn := s.nextConn + 1, wg := s.wg + 1, table := s.table ++ [s.nextConn], ths := l1 ++ ⟨r, .done (.conn s.nextConn)⟩ :: l2 })
+    (th' := ⟨r, .done (.conn s.nextConn)⟩) h hs rfl rfl ?_ ?_ ?_ ?_ ?_ ?_ h.qnd ?_ ?_ ?_ ?_
+  · exact frame_arrive a s s.acceptQ (Or.inl rfl) hp _
   · refine ⟨by simp, by simp, fun h => absurd h hr, fun h => absurd h hr, ?_⟩
     intro c hc
     simp only [Pc.done.injEq, Res.conn.injEq] at hc
@@ -322,8 +367,8 @@ theorem inv_give {a : Nat} {s : Sys} {l1 l2 : List Th} {r : Role}
   · show a ≤ s.nextConn + 1
     have := h.nge; omega
   · intro ha
-    have : s.accepting = false := ha
-    rw [hacc] at this; cases this
+    have := hacc ha
+    simpa [lstarted_append, lstarted_cons, hr] using this
   · intro c' h1 h2
     show started _ c' = true
     rw [hst]
@@ -332,13 +377,19 @@ theorem inv_give {a : Nat} {s : Sys} {l1 l2 : List Th} {r : Role}
     apply h2
     show c' ∈ s.table ++ [s.nextConn]
     simp [hm]
+  · intro hr'
+    have hr' : relL (l1 ++ ⟨r, .done (.conn s.nextConn)⟩ :: l2) = true := hr'
+    simp [relL_append, relL_cons, hr] at hr' hrel
+    rcases hr' with e | e <;> simp [e] at hrel
 
 /-- a new remote's first datagram, queued for Accept -/
 theorem inv_queue {a : Nat} {s : Sys}
-    (h : Inv a s) (hsc : s.sockClosed = false) (hacc : s.accepting = true) :
-    Inv a { s with nextConn := s.nextConn + 1, wg := s.wg + 1, table := s.table ++ [s.nextConn],
+    (h : Inv a s) (hp : s.arrPending = true) :
+    Inv a { s with arrPending := false, nextConn := s.nextConn + 1, wg := s.wg + 1, table := s.table ++ [s.nextConn],
                    acceptQ := s.acceptQ ++ [s.nextConn] } := by
-  refine ⟨h.wf, ?_, ?_, ?_, ?_, ?_, ?_, ?_, ?_, ?_⟩
+  have hsc := sock_of_pend h hp
+  have hrel := relL_of_pend h hp
+  refine ⟨h.wf, ?_, ?_, ?_, ?_, ?_, ?_, h.acc, ?_, ?_, ?_⟩
   · show s.wg + 1 = _ + (s.acceptQ ++ [s.nextConn]).length + _ + _
     rw [h.count]
     simp
@@ -366,15 +417,15 @@ theorem inv_queue {a : Nat} {s : Sys}
     omega
   · show a ≤ s.nextConn + 1
     have := h.nge; omega
-  · intro ha
-    have : s.accepting = false := ha
-    rw [hacc] at this; cases this
   · intro c' h1 h2
     apply h.tbl c' h1
     intro hm
     apply h2
     show c' ∈ s.table ++ [s.nextConn]
     simp [hm]
-  · exact thr_frame h.thr (frame_arrive a s _ (Or.inr rfl) hacc) rfl
+  · intro hr
+    have : relL s.ths = true := hr
+    rw [hrel] at this; cases this
+  · exact thr_frame h.thr (frame_arrive a s _ (Or.inr rfl) hp _) rfl
 
 end TV.Proofs.ListenerLife
